@@ -211,6 +211,30 @@ func vfConformSync() {
 	pi := pool.Get().(*int)
 	*pi = 41
 	vfObserve("pool-new", *pi)
+	fl := make(chan *int, 1)
+	var slot *int
+	select {
+	case slot = <-fl:
+	default:
+		slot = new(int)
+	}
+	*slot = 7
+	select {
+	case fl <- slot:
+	default:
+	}
+	select {
+	case fl <- slot:
+		vfObserve("chan-full", false)
+	default:
+		vfObserve("chan-full", true)
+	}
+	select {
+	case g2, ok := <-fl:
+		vfObserve("chan-reuse", fmt.Sprint(*g2, ok))
+	default:
+		vfObserve("chan-reuse", "none")
+	}
 	var ap atomic.Pointer[int]
 	x := 5
 	ap.Store(&x)
